@@ -111,8 +111,8 @@ theorem tigerBuild_congr (s s' : XSent) (ht : s'.terms = s.terms)
   | zero => intro i e; rfl
   | succ fuel ih =>
     intro i e
-    have hfun : (fun (e : Option Str × Str) => tigerBuild s' fuel e.2 (some (e.1.getD "None".toList))) =
-        (fun (e : Option Str × Str) => tigerBuild s fuel e.2 (some (e.1.getD "None".toList))) := funext fun e => ih _ _
+    have hfun : (fun (e : Option Str × Str) => tigerBuild s' fuel e.2 e.1) =
+        (fun (e : Option Str × Str) => tigerBuild s fuel e.2 e.1) := funext fun e => ih _ _
     simp only [tigerBuild, ht, hf, hfun]
 
 /-- the sentence reader, given that every id is defined once, does not depend on the order of the <nt> elements -/
